@@ -73,6 +73,7 @@ func exerRun(rig *lockRig, c *exerCase, kinds map[string]bool) (msg string, step
 	table, n, ok := exerTable(img)
 	st := c.St
 	st.PC, st.Halt = 0x0100, false
+	rig.resync = true
 	rig.init(st, c.Seed, c.Seed^0x5a5a, 0, -1)
 	for i, b := range img {
 		rig.poke(0x0100+uint16(i), b)
